@@ -389,6 +389,45 @@ def conversation(steps, cid):
     return out
 
 
+def _batch_conversations(conf, events, wd, cids):
+    """Write the whole event list in one piece, close the input, read everything: per-client conversations."""
+    import eng_proto3 as ep3
+    spec_b = proto.Spec(proto.Conf(conf), "ARUW")
+    lines = []
+    for i, ev in enumerate(events):
+        ln = ep.concretize(ev, spec_b)
+        spec_b.feed_input(i, ln)
+        lines.append(ln)
+    shutil.rmtree(wd, ignore_errors=True)
+    rb = ep3.run_batch(ep.conf_text(conf), ("\n".join(lines) + "\n").encode("latin-1"), wd)
+    if rb["rc"] != 0 or rb["hang"]:
+        return None
+    return [conversation([(None, rb["out"], None)], cid) for cid in cids]
+
+
+def eval_c07_batch_only(case, ctx, res):
+    """The daemon stopped answering the lock-step barrier even for a client on its own (so lock-step attribution is
+    unusable here, and the hang itself is C08's business): compare solo and interleaved conversations without barriers."""
+    wd = os.path.join(ctx["root"], "c")
+    res.inconclusive = "sut_hang"
+    cids = [sc[0][1] for sc in case["scripts"]]
+    solo = []
+    for sc in case["scripts"]:
+        c = _batch_conversations(case["conf"], sc, wd, [sc[0][1]])
+        if c is None:
+            return res
+        solo.append(c[0])
+    inter = _batch_conversations(case["conf"], merge(case["scripts"], case["order"]), wd, cids)
+    if inter is None:
+        return res
+    for i, cid in enumerate(cids):
+        if inter[i] != solo[i]:
+            res.violations.append(V("C07", "interference_batch", "client %d: conversation differs from solo when both streams are written in one piece "
+                                    "(the daemon does not answer a lock-step barrier on this history)" % cid))
+            break
+    return res
+
+
 def eval_c07(case, ctx):
     res = CaseResult()
     wd = os.path.join(ctx["root"], "c")
@@ -397,8 +436,10 @@ def eval_c07(case, ctx):
     for sc in scripts:
         shutil.rmtree(wd, ignore_errors=True)
         steps, spec, info = run_plain(case["conf"], sc, wd)
+        if info["died"] and info["hang"]:
+            return eval_c07_batch_only(case, ctx, res)
         if info["died"]:
-            res.inconclusive = "sut_hang" if info["hang"] else "sut_died"
+            res.inconclusive = "sut_died"
             return res
         solo.append(conversation(steps, sc[0][1]))
     shutil.rmtree(wd, ignore_errors=True)
